@@ -98,4 +98,29 @@ ImplDecompress(s, devAvg, devArr, devNul) ==
 \* Document::compress honours allows_compression, Stream::compress does not
 ImplDocCompress(ss, cs) == [i \in 1..Len(ss) |-> IF ss[i].allows THEN ImplCompress(ss[i], cs[i]) ELSE ss[i]]
 ImplDocDecompress(ss, devAvg, devArr, devNul) == [i \in 1..Len(ss) |-> ImplDecompress(ss[i], devAvg, devArr, devNul)]
+
+-----------------------------------------------------------------------------
+(* Classes of input on which the code as it is deviates (narrow signatures of the known      *)
+(* findings, DESIGN 2.9).  s is the state the operation (or query) starts from.               *)
+
+\* data handed to the predictor of the first stage
+PredictorInput(s) ==
+    IF s.filters[1] = Flate THEN Inflate(s.content, s.orc) ELSE LzwDecode(s.content, ParmFor(s, 1).early)
+
+HasAvgRow(z, L) == \E r \in 1..(Len(z) \div (L + 1)) : z[(r - 1) * (L + 1) + 1] = 3
+
+\* a state may belong to several classes
+KnownClasses(s, op) ==
+    (IF op \in {"compress", "doc_compress"} /\ s.filters = <<>> /\ s.form # "none" THEN {"compress.stale-decodeparms"} ELSE {})
+    \cup (IF s.filters # <<>> /\ s.form = "array" /\ \E i \in 1..Min2(Len(s.parms), Len(s.filters)) :
+                s.parms[i].present /\ s.filters[i] \in {Flate, Lzw}
+                /\ (UsesPng(s.parms[i]) \/ (s.filters[i] = Lzw /\ s.parms[i].early = 0))
+          THEN {"decodeparms.array"} ELSE {})
+    \cup (IF s.filters # <<>> /\ s.filters[1] \in {Flate, Lzw} /\ InDomain(s)
+             /\ UsesPng(ParmFor(s, 1)) /\ RowLen(ParmFor(s, 1)) > Bpp(ParmFor(s, 1))
+             /\ PredictorInput(s).ok /\ HasAvgRow(PredictorInput(s).data, RowLen(ParmFor(s, 1)))
+          THEN {"png.avg"} ELSE {})
+
+\* the switches that reproduce class k in the impl-shaped layer
+ImplViewFor(s, k) == ImplView(s, k = "png.avg", k = "decodeparms.array", FALSE)
 =============================================================================
